@@ -1,4 +1,4 @@
-"""GenManifest.v -- how column bounds travel through a manifest, read off the source (C13).
+"""GenManifest13.v -- how column bounds travel through a manifest, read off the source (C13).
 
     FileManager.create_manifest_file        (file_manager.py)
       gen_status_added / gen_status_existing   the ENTRY_STATUS_* constants
@@ -247,7 +247,7 @@ def reader_terms(fn: ast.FunctionDef) -> Dict[str, str]:
     return out
 
 
-@generator("GenManifest.v")
+@generator("GenManifest13.v")
 def gen_manifest(src: str) -> str:
     mod = parse_module(src, "file_manager.py")
     # self._encode_bound / self._decode_bound are the plain functions GenBound.v translates (no wrapper around them)
@@ -262,7 +262,7 @@ def gen_manifest(src: str) -> str:
                     raise Unsupported(f"{_u(t)} is rebound at run time")
     w = writer_terms(find_function(mod, "create_manifest_file", cls="FileManager"), mod)
     r = reader_terms(find_function(mod, "read_manifest_file", cls="FileManager"))
-    return f"""(* GENERATED by translator/gen_manifest.py from src/datashard/file_manager.py::create_manifest_file/read_manifest_file -- do not edit *)
+    return f"""(* GENERATED by translator/gen_manifest13.py from src/datashard/file_manager.py::create_manifest_file/read_manifest_file -- do not edit *)
 From Coq Require Import ZArith List Bool String.
 Require Import DS.Model.Value DS.Model.BoundPrim DS.Gen.GenBound DS.Model.Bound DS.Model.ManifestPrim.
 Import ListNotations.
